@@ -432,11 +432,14 @@ func (fx *FuncExec) evalComposite(st *State, e *ast.CompositeLit, addr bool) Ter
 		for _, f := range fvs {
 			comp := si.Comp[f.name]
 			if fx.reg.imm[comp] {
-				st.assume(eq("(imm_"+comp+" "+r+")", f.val.S))
+				fx.immFact(r, eq("(imm_"+comp+" "+r+")", f.val.S))
 				continue
 			}
 			if sub := fx.structValInfo(si.FieldT[f.name]); sub != nil {
+				saved := fx.initCopy
+				fx.initCopy = true
 				fx.copyInto(st, sel(fx.H(st, comp), r), f.val.S, sub, true)
+				fx.initCopy = saved
 				continue
 			}
 			fx.setHq(st, comp, store(fx.H(st, comp), r, f.val.S))
